@@ -1,6 +1,7 @@
 #!/bin/bash
 # Runs every seeded change against the check of its own property (quick tier) and writes seeded/RESULTS.tsv
-cd /verif || exit 1
+V="$(cd "$(dirname "$0")/.." && pwd)"  # the /verif tree this script belongs to (a committed snapshot under vp run)
+cd "$V" || exit 1
 out=seeded/RESULTS.tsv; : > $out
 for d in seeded/C*-*/; do
   name=$(basename $d); c=${name%%-*}
